@@ -173,6 +173,7 @@ type c30Det struct {
 	cfg                              config.SleepConfig
 	cb                               sleep.Callbacks
 	restarts                         int
+	stopped                          bool // c.m has been stopped and not yet replaced
 	freshResume                      bool // no accepted transition and no poll yet on the manager that resumed from disk
 
 	mu       sync.Mutex
@@ -401,8 +402,8 @@ func (c *c30Det) judgeWake(how string, err error, evs []c30Ev) {
 func (c *c30Det) doRestart(viaStart bool) {
 	old := c.m
 	old.Stop()
+	c.stopped = true
 	c.trace = append(c.trace, "Stop")
-	c.transitions++ // Stop writes the state file even if nothing happened before
 	c.afterStep("Stop", nil)
 	c30Reg.Delete(old)
 	if c.failed {
@@ -411,6 +412,7 @@ func (c *c30Det) doRestart(viaStart bool) {
 	m := sleep.NewManager(c.cfg, c.dir, nil)
 	m.SetCallbacks(c.cb)
 	c.m = m
+	c.stopped = false
 	c30Reg.Store(m, c)
 	var err error
 	how := "LoadState"
@@ -651,7 +653,8 @@ func c30DetCase(r *verifkit.R, phase string, ci int, rng *verifkit.Rand, base st
 				c.doPollStep(p)
 			}})
 		}
-		if len(parked) == 0 && c.persist && c.restarts < 3 {
+		// (only once a transition has completed: before that no state file is owed)
+		if len(parked) == 0 && c.persist && c.restarts < 3 && c.transitions > 0 {
 			w := 2
 			if c.state == sleep.StateSleeping {
 				w = 4
@@ -701,6 +704,10 @@ func c30DetCase(r *verifkit.R, phase string, ci int, rng *verifkit.Rand, base st
 				}
 			}
 		}
+	}
+	if c.stopped { // a restart step failed right after Stop: nothing left to shut down
+		r.Eval(fmt.Sprintf("%v/%v/%v/%s", c.onPollSet, c.onPollEndSet, c.persist, strings.Join(c.trace, ";")), false)
+		return
 	}
 	if c.m.GetState() != sleep.StateAwake {
 		_ = c.m.Wake()
